@@ -37,3 +37,10 @@ Theorem C20_source_unchanged :
   Inv st -> log_stat H st = Ok (st1, r) -> Inv st1 /\ abs st1 = abs st /\ opened st1 = opened st.
 Proof. exact backup_leaves_source. Qed.
 Print Assumptions C20_source_unchanged.
+
+(* the skip rule of the copy (same size and mtime: not copied again): for a file that has only been appended to,
+   equal size means equal content *)
+Theorem C20_skip_rule_safe :
+  forall (old new tl : bytes), new = old ++ tl -> length old = length new -> old = new.
+Proof. exact skip_rule_safe. Qed.
+Print Assumptions C20_skip_rule_safe.
